@@ -322,6 +322,7 @@ def r9_4(ctx):
             reset.add((ctx.types.field_owner(e.cls, e.attr) or e.cls, e.attr))
     written = {}
     funcs = list(sim_reach(ctx, precise=True))
+    step_code = {id(g.node) for g in funcs}
     # a backward run and the log reversal belong to "running a simulation" too
     for nm in ("backward_simulate", "reverse_log_information"):
         g0 = ctx.repo.lookup_method(PROJECT, nm)
@@ -330,8 +331,8 @@ def r9_4(ctx):
     structure = {"input_task_list", "output_task_list", "input_workplace_list", "output_workplace_list", "task_list"}
     for g in funcs:
         for e in ctx.eff.of(g):
-            if e.attr in structure and g.name in ("reverse_dependencies", "backward_simulate", "append_input_task"):
-                continue  # swapped and swapped back / helper tasks removed again: C17 R17.1-R17.3
+            if e.attr in structure and id(g.node) not in step_code:
+                continue  # the backward wrapper (and its helpers): swapped and swapped back / helper tasks removed again: C17 R17.1-R17.3
             if g.name == "__init__":
                 continue
             if e.kind in ("store", "mut") and e.cls and not e.attr.startswith("dummy_"):
